@@ -2,6 +2,7 @@
 four kinds at chosen virtual instants while LEASE frames (count, ttl) are injected; the order of request frames on the wire,
 the lease queue and QueueFull refusals are compared with model/Lease.v.  Responder side: a real server with a lease
 publisher; the LEASE frames it writes for published leases."""
+from harness import internals
 import asyncio
 from datetime import timedelta
 
@@ -65,8 +66,7 @@ def run_requester(script, qmax, frag):
                 d = sim.parse_sent(b)
                 if d['t'] in REQ_TYPES:
                     wire.append(d['sid'])
-            q = c._request_queue          # whatever container holds the requests waiting for a lease
-            queue = [f.stream_id for f in list(getattr(q, '_queue', q))]
+            queue = [f.stream_id for f in internals.queue_items(internals.request_queue(c))]
             segments.append({'t0': seg_t0, 'evs': list(evs), 'sent': wire, 'queue': queue, 'refused': list(refused),
                              'sent_after': list(marks)})
 
